@@ -756,6 +756,217 @@ def run_sequence(case):
     return {"viol": _cap(viol), "outcome": "sequence:" + "".join(outcomes), "nontrivial": compared > 0}
 
 
+# --------------------------------------------------------------------------- command chains on REAL tables
+
+ORTHO = [(1, 1), (2, 2), (3, 3), (1, 2), (1, 3), (2, 3), (4, 4), (5, 5), (6, 6)]
+CHAIN_QHA = dict(T_MIN=0, NT=5, DT=300, DT_SAMPLE=300, P_MIN=0, DELTA_P=1.0, DELTA_P_SAMPLE=1.0, NTV=21)
+CHAIN_OUT_ALL = ["cij", "cij_t", "bm_V", "bm_R", "bm_VRH", "G_V", "G_R", "G_VRH", "vp", "vs", "v"]
+CHAIN_OUT_SUB = ["cij", "vp", "v"]
+# a "run" = one synthetic calculation (mc.synth) written by the real writer: (static law, spectrum, requested outputs)
+CHAIN_RUNS = {"a": ("generic", "mid", CHAIN_OUT_ALL), "b": ("cubicfit", "low", CHAIN_OUT_ALL),
+              "b-sub": ("cubicfit", "low", CHAIN_OUT_SUB), "a-sub": ("generic", "mid", CHAIN_OUT_SUB)}
+
+
+def _chain_vars(keywords):
+    """Variable names (= stems of the documented file names) that a list of output keywords produces."""
+    out = []
+    for kw in keywords:
+        if kw == "cij":
+            out += ["c%d%ds" % p for p in ORTHO]
+        elif kw == "cij_t":
+            out += ["c%d%dt" % p for p in ORTHO]
+        else:
+            out.append({"vp": "v_p", "vs": "v_s"}.get(kw, kw))
+    return out
+
+
+def _copy_dir(src, dst, descending):
+    """A plain copy of a result directory; the entries are created in ascending or descending name order,
+    so that whatever rule the file system has for listing a directory, both relative orders of two
+    entries occur."""
+    os.makedirs(dst)
+    for name in sorted(os.listdir(src), reverse=descending):
+        if os.path.isfile(os.path.join(src, name)):
+            shutil.copyfile(os.path.join(src, name), os.path.join(dst, name))
+
+
+def _check_geotherm_nodes(out, E, variables, cols, rows, nodes, viol, tag, elsewhere):
+    """extract-geotherm on tables that are not an analytic function: the path runs through grid nodes only,
+    where the statement demands the table entry itself."""
+    try:
+        tab = R.parse_stdout(out, header=True, has_index=False)
+    except ValueError as e:
+        viol.append(V(f"{tag}:unparsable", f"stdout is not a numeric table ({e}): {out[:200]!r}"))
+        return 0
+    if tab["names"] != cols + variables:
+        viol.append(V(f"{tag}:columns", f"header {tab['names']} != geotherm columns + variables {cols + variables}"))
+    if len(tab["cols"]) != len(cols) + len(variables) or tab["nrow"] != len(rows):
+        viol.append(V(f"{tag}:shape", f"{tab['nrow']} rows x {len(tab['cols'])} columns for {len(rows)} points, {len(cols)}+{len(variables)} columns"))
+        return 0
+    for c, name in enumerate(cols):
+        if not _close(tab["cols"][c], [r[c] for r in rows]):
+            viol.append(V(f"{tag}:passthrough:{name}", f"geotherm column '{name}' printed {tab['cols'][c][:3]}.. was {[r[c] for r in rows][:3]}.."))
+    n = 0
+    for vi, var in enumerate(variables):
+        _, _, Z = _entries(E, var)
+        col = tab["cols"][len(cols) + vi]
+        n += 1
+        for (iT, jP), tok in zip(nodes, col):
+            entry = float(Z[iT, jP])
+            if abs(float(tok) - entry) <= RTOL * abs(entry) + R.half_ulp(tok) * (1 + 1e-9):
+                continue
+            cls = "unexplained"
+            for label, d2 in elsewhere:
+                if os.path.exists(os.path.join(d2, FNAME[var])):
+                    e2 = float(_entries(d2, var)[2][iT, jP])
+                    if abs(float(tok) - e2) <= RTOL * abs(e2) + R.half_ulp(tok) * (1 + 1e-9):
+                        cls = label
+                        break
+            viol.append(V(f"{tag}:node-value:{cls}", f"{var} at node (T-index {iT}, P-index {jP}): printed {tok}, entry of the table written last {entry!r}"))
+    return n
+
+
+def run_chain(case):
+    """The tables in the directory are produced by the REAL writer, several times in a row with different
+    data (Calculator(settings).write_output() or `cij run settings.yaml`, mc.synth inputs).  Then extract
+    and extract-geotherm, run in that directory and in two plain copies of it, must return the numbers
+    of the table that was written LAST for each variable (read back from the documented file right after
+    the write that produced it, with the independent parser)."""
+    from mc import synth
+    runs = list(case["runs"])
+    route = case["route"]
+    root = tempfile.mkdtemp(prefix="c19-chain-", dir="/dev/shm")
+    viol, compared, outcomes = [], 0, []
+    try:
+        inp, out = os.path.join(root, "in"), os.path.join(root, "out")
+        os.makedirs(inp)
+        os.makedirs(out)
+        settings = os.path.join(inp, "settings.yaml")
+        current, snaps = {}, []
+        for k, run in enumerate(runs):
+            static, wset, keywords = CHAIN_RUNS[run]
+            spec = dict(nv=6, nq=2, na=1, lattice="power", system="orthorhombic", compset="minimal", static=static, wset=wset,
+                        weights="increasing", qha=dict(CHAIN_QHA), output={"pressure_base": list(keywords)})
+            synth.write(inp, spec)
+            old = os.getcwd()
+            os.chdir(out)
+            try:
+                if route == "write_output":
+                    from cij.core.calculator import Calculator
+                    Calculator(settings).write_output()
+                else:
+                    from click.testing import CliRunner
+                    from cij.cli.cij import main
+                    res = CliRunner().invoke(main, ["run", settings])
+                    if res.exit_code != 0 or res.exception is not None:
+                        raise res.exception or RuntimeError(f"exit {res.exit_code}")
+            except Exception as ex:
+                return {"viol": [V(f"c19:chain:writer-raises:{type(ex).__name__}", f"run {k} ({run}, {route}) of {runs}: {ex!r}")],
+                        "outcome": "writer-raises"}
+            finally:
+                os.chdir(old)
+            snap = os.path.join(root, f"written-by-run-{k}")
+            os.makedirs(snap)
+            for var in _chain_vars(keywords):
+                src = os.path.join(out, FNAME[var])
+                if not os.path.isfile(src):
+                    raise HarnessError(f"run {k} ({run}) did not leave {FNAME[var]} (C15's subject); directory: {sorted(os.listdir(out))[:6]}")
+                shutil.copyfile(src, os.path.join(snap, FNAME[var]))
+                current[var] = k
+            snaps.append(snap)
+        # the tables written last, per variable, and the earlier versions that differ from them
+        E = os.path.join(root, "written-last")
+        os.makedirs(E)
+        for var, k in current.items():
+            shutil.copyfile(os.path.join(snaps[k], FNAME[var]), os.path.join(E, FNAME[var]))
+        variables = sorted(current, key=lambda v: (len(v), v[::-1]))          # neither alphabetical nor creation order
+        stale = []
+        for k, snap in enumerate(snaps):
+            differs = [v for v in variables if k != current[v] and os.path.exists(os.path.join(snap, FNAME[v]))
+                       and open(os.path.join(snap, FNAME[v])).read() != open(os.path.join(E, FNAME[v])).read()]
+            if differs:
+                stale.append(("stale:earlier-run", snap))
+        if len({r.split("-")[0] for r in runs}) > 1 and not stale:
+            raise HarnessError(f"runs {runs} produced identical tables")
+        for var in variables:
+            if open(os.path.join(out, FNAME[var])).read() != open(os.path.join(E, FNAME[var])).read():
+                raise HarnessError(f"{FNAME[var]} changed after the snapshot")
+        Tg, Pg, _ = _entries(E, variables[0])
+        nodes = [(1, 2), (2, 7), (3, 13), (4, 20), (0, 0)]
+        cols = ["P", "T", "D"]
+        rows = [[float(Pg[j]), float(Tg[i]), 6371 - 57 * n] for n, (i, j) in enumerate(nodes)]
+        dirs = [("as-written", out)]
+        for label, desc in (("copied-ascending", False), ("copied-descending", True)):
+            dst = os.path.join(root, label)
+            _copy_dir(out, dst, desc)
+            dirs.append((label, dst))
+        for label, D in dirs:
+            listing = sorted(os.listdir(D))
+            amb = {v: R.glob_matches(v, listing) for v in variables}
+            amb = {v: m for v, m in amb.items() if len(m) != 1}
+            if amb and label == "as-written":
+                v0 = sorted(amb)[0]
+                viol.append(V("c19:chain:lookup-ambiguous-after-real-writes",
+                              f"after runs {runs} ({route}) the directory written by cij alone holds {amb[v0]} for '{v0}_tp_*' "
+                              f"({len(amb)} of {len(variables)} variables): which table extract reads depends on the file system's listing order"))
+            with open(os.path.join(D, "geo.dat"), "w") as fp:
+                fp.write(R.format_geotherm(cols, rows))
+            nv = len(viol)
+            for axis, grid, pos in (("T", Tg, 1), ("P", Pg, 13)):
+                y, want = _request(list(grid), {"kind": "mid+", "pos": pos, "inv_eps": 8})
+                args = ["extract", "-v", ",".join(variables), "-" + axis, _fmt(y)]
+                code, exc, txt = _invoke(D, args)
+                if code != 0 or exc is not None:
+                    viol.append(V(f"c19:chain:{label}:extract:crash:{type(exc).__name__}", f"after runs {runs}: {' '.join(args[:2])}.. -> exit {code}, {exc!r}"))
+                    continue
+                compared += _check_extract_output(txt, E, variables, axis, want, False, "mid+", viol, variables,
+                                                  tag=f"c19:chain:{label}:extract", elsewhere=stale)
+            args = ["extract-geotherm", "-g", "geo.dat", "-v", ",".join(variables)]
+            code, exc, txt = _invoke(D, args)
+            if code != 0 or exc is not None:
+                viol.append(V(f"c19:chain:{label}:geotherm:crash:{type(exc).__name__}", f"after runs {runs}: exit {code}, {exc!r}"))
+            else:
+                compared += _check_geotherm_nodes(txt, E, variables, cols, rows, nodes, viol, f"c19:chain:{label}:geotherm", stale)
+            for v in viol[nv:]:
+                v["msg"] = f"runs {runs} via {route}, directory {label}: " + v["msg"]
+            outcomes.append("ok" if len(viol) == nv else "bad")
+    finally:
+        shutil.rmtree(root, ignore_errors=True)
+    return {"viol": _cap(viol), "outcome": f"chain:{len(runs)}runs:{route}:" + ",".join(outcomes), "nontrivial": compared > 0 and len(runs) > 0}
+
+
+DECOY_NAMES = ["c11s_tp_gpa.txt.bak", "c11s_tp_gpa.txt~", "c11s_tp_gpa.txt.orig", "c11s_tp_gpa.old.txt"]
+
+
+def run_decoy(case):
+    """A file whose name EXTENDS a table's name (an editor backup, a hand-made .orig/.old copy) also matches the
+    lookup pattern c11s_tp_*.  Such a directory is not one of "output tables produced as in C15" (the quantifier
+    of the statement), so nothing is asserted: which file is read is recorded."""
+    dom = RANGES["R1"]
+    d = tempfile.mkdtemp(prefix="c19-", dir="/dev/shm")
+    try:
+        decoy = case["decoy"]
+        if case["created"] == "before":
+            _put_table(os.path.join(d, decoy), "poly3", KIDX["c11s"] + 400, dom, 41, 41)
+        _populate(d, "poly3", dom, 41, 41, "small")
+        if case["created"] == "after":
+            _put_table(os.path.join(d, decoy), "poly3", KIDX["c11s"] + 400, dom, 41, 41)
+        matches = R.glob_matches("c11s", sorted(os.listdir(d)))
+        if sorted(matches) != sorted(["c11s_tp_gpa.txt", decoy]):
+            raise HarnessError(f"decoy {decoy}: pattern selects {matches}")
+        code, exc, out = _invoke(d, ["extract", "-v", "c11s", "-T", "680.0"])
+        if code != 0 or exc is not None:
+            return {"viol": [], "outcome": f"decoy:refused:{type(exc).__name__}", "nontrivial": False}
+        tab = R.parse_stdout(out, header=True, has_index=True)
+        T, P, Z = _entries(d, "c11s")
+        with open(os.path.join(d, decoy)) as fp:
+            Zd = np.array(R.parse_table_text(fp.read())[2])
+        picked = "table" if _close(tab["cols"][0], Z[14]) else "decoy" if _close(tab["cols"][0], Zd[14]) else "neither"
+    finally:
+        shutil.rmtree(d, ignore_errors=True)
+    return {"viol": [], "outcome": f"decoy-created-{case['created']}:reads-{picked}", "nontrivial": False}
+
+
 def run_case(case):
     kind = case["kind"]
     if kind == "extract":
@@ -766,6 +977,10 @@ def run_case(case):
         return run_geotherm(case)
     if kind == "sequence":
         return run_sequence(case)
+    if kind == "chain":
+        return run_chain(case)
+    if kind == "decoy":
+        return run_decoy(case)
     raise HarnessError(f"unknown case kind {kind}")
 
 
@@ -880,6 +1095,22 @@ def row_order_cases(quick):
     return cases
 
 
+def chain_cases(quick):
+    """Histories of real writes into one directory: quick {a; a,b; a,b,a; a,b-sub} x {write_output, cij run};
+    thorough every history of length 1..3 over {a, b, a-sub, b-sub} that starts with a full write."""
+    import itertools
+    if quick:
+        hist = [["a"], ["a", "b"], ["a", "b", "a"], ["a", "b-sub"]]
+    else:
+        hist = [list(h) for L in (1, 2, 3) for h in itertools.product(sorted(CHAIN_RUNS), repeat=L) if not h[0].endswith("-sub")]
+    return [{"kind": "chain", "runs": h, "route": r} for h in hist for r in ("write_output", "cli-run")
+            if not (quick and len(h) == 1 and r == "cli-run")]
+
+
+def decoy_cases():
+    return [{"kind": "decoy", "decoy": n, "created": c} for n in DECOY_NAMES for c in ("before", "after")]
+
+
 def sequence_cases(quick):
     """Mode B: all command histories of length 2..3 (thorough: 2..4 over the larger alphabet)."""
     import itertools
@@ -916,7 +1147,10 @@ def explore(ctx):
         "outside the table); row multiset/order of the geotherm file {as is, an exactly repeated row first/middle/last, two "
         "repeated rows, a non-adjacent repeat, equal (P,T) with other passthrough values, reversed, zig-zag, P decreasing} x "
         "{nodes, between, mixed} x {1,3,50 points} x {R1,R2} (oracle per row: output row k = file row k + value at its (P,T); "
-        "as many output rows as input rows). Mode B: every history of length 2..3 (thorough 2..4) over {extract in directory A, extract in "
+        "as many output rows as input rows). Real-writer chains: histories of 1..3 synthetic calculations (mc.synth, two different "
+        "data sets, full or reduced output list) written into ONE directory by Calculator.write_output() or `cij run`, then extract "
+        "-T/-P and extract-geotherm (nodes) with all written variables, in the directory as written and in two plain copies (entries "
+        "created in ascending / descending name order), compared with the table written LAST per variable. Mode B: every history of length 2..3 (thorough 2..4) over {extract in directory A, extract in "
         "directory B with the same variable names and other tables, rewrite A's tables, extract-geotherm in A, in B} run in one "
         "process, each output compared with the tables on disk at that moment. Non-trivial = at least one "
         "printed value column was compared against a table whose rows, columns and variables are pairwise distinct "
@@ -931,6 +1165,11 @@ def explore(ctx):
         "geotherm paths stay inside the tabulated range (statement); behaviour outside (clamping) is not asserted",
         "explicit --t-col/--p-col are used as their help texts say (--t-col = name of the pressure column); the "
         "reading by option name is probed and recorded, not asserted (outside the statement: its seam is the default call)",
+        "the tables written last are read back from the documented file names right after each real write (that those files hold "
+        "the in-memory results is C15's subject); chain tables are not analytic, so extract-geotherm is asserted at grid nodes only there",
+        "files whose names extend a table name (c11s_tp_gpa.txt.bak, ...txt~, ...txt.orig, ...old.txt) made by the USER are outside the "
+        "quantifier ('output tables produced as in C15'): which file is read is recorded (notes), not asserted; the same kind of file left "
+        "by cij's own writer is inside it (real-writer chains)",
         "exact midpoint requests, unknown variable names (loud IndexError), -T and -P together or neither: outside the statement",
     ]
     amb = R.ambiguous_names()
@@ -953,8 +1192,24 @@ def _explore(ctx, q):
         res = ctx.run(MOD, "run_case", cases, part=part, **kw)
         walls[part] = round(time.time() - t0, 2)
         return res
-    sq = sequence_cases(q)       # first: the workers are fresh, nothing from other cases is in the process yet
-    timed(sq, "sequences-in-one-process", transitions=sum(len(c["ops"]) for c in sq))
+    # first: the workers are fresh, nothing from other cases is in the process yet.  The real-writer chains
+    # (few, each paying the first-calculation warm-up of its worker) are submitted together with the
+    # sequences, one chain per chunk, so that they overlap; the two parts are booked separately.
+    sq = sequence_cases(q)
+    ch = chain_cases(q)
+    step = max(1, len(sq) // max(1, len(ch)))
+    both = []
+    for i, c in enumerate(ch):
+        both.append(c)
+        both += sq[i * step:(i + 1) * step]
+    both += sq[len(ch) * step:]
+    t0 = time.time()
+    res = ctx.run(MOD, "run_case", both, part=None, chunksize=1,
+                  transitions=sum(len(c["ops"]) for c in sq) + sum(len(c["runs"]) + 9 for c in ch))
+    walls["sequences+real-writer-chains"] = round(time.time() - t0, 2)
+    for label, kind in (("sequences-in-one-process", "sequence"), ("real-writer-chains", "chain")):
+        ctx.parts[label] = {"executions": sum(1 for c in both if c["kind"] == kind),
+                            "violations": sum(len(r.get("viol", [])) for c, r in zip(both, res) if c["kind"] == kind)}
     ec = extract_cases(q)
     timed(ec, "extract")
     ctx.run_under(MOD, "run_case", ec[:2] + ec[-1:], ("-O",))   # interpreter started with -O (asserts stripped)
@@ -974,6 +1229,9 @@ def _explore(ctx, q):
     ro = row_order_cases(q)
     timed(ro, "geotherm-row-orders")
     pr = timed(option_name_probes(), "geotherm-option-name-probe")
+    dc = decoy_cases()
+    dr = timed(dc, "extract-name-extending-decoys-probe")
+    ctx.notes["name_extending_decoys_not_asserted"] = {f"{c['decoy']} created {c['created']}": r.get("outcome") for c, r in zip(dc, dr)}
     ctx.notes["alphabets"] = {
         "extract": {"grids": 1 if q else 4, "nvars": 3, "axis": 2, "header": 2, "order": 2, "requests": len(extract_requests()),
                     "cases": len(ec)},
@@ -985,6 +1243,7 @@ def _explore(ctx, q):
         "row_orders": {"arrangements": len(ROW_ORDERS), "ranges": 2, "paths": 3, "npts": 3, "layouts": 1 if q else 3,
                        "function_x_grid": 1 if q else 3, "cases": len(ro)},
         "header_orders": {"families": len(HEADER_FAMILIES), "orders_each": 24, "ranges": 2, "paths": 1 if q else 4, "cases": len(ho)},
+        "real_writer_chains": {"runs": sorted(CHAIN_RUNS), "histories": len({tuple(c["runs"]) for c in ch}), "routes": 2, "directories_checked": 3, "cases": len(ch)},
         "sequences": {"operations": len(SEQ_OPS_QUICK if q else SEQ_OPS), "lengths": [2, 3] if q else [2, 3, 4], "cases": len(sq)},
     }
     ok = [r for r in gr if not r.get("harness_error")]
